@@ -19,15 +19,17 @@ ID = "C10"
 LEVEL = "model_checking"
 TECHNIQUE = "explicit-state BFS over view-read/tamper sequences on real Simulation objects with state hashing; reference evaluator per row and segment"
 LEVEL_TEXT = (
-    "For results with 1, 2 and 3 segments (parameter changes in between; derived parameter, derived variable, readout, "
-    "surrogate, parameter-named coefficient) every sequence of the 24 view reads / tampering operations is explored "
-    "breadth-first with states hashed on the lazily filled tables and the model's parameter values, to a fixpoint or "
-    "depth 3 (quick) / 6 (thorough). Every returned table is compared with the reference evaluator at each row's state, "
+    "For results with 1, 2 and 3 segments (parameter changes in between) of two models - 'rich': derived parameter, "
+    "derived variable of a parameter, readout, surrogate, parameter-named coefficient, coefficient computed from a "
+    "parameter nothing else uses; 'lean': the same without any derived quantity that takes a parameter - every sequence "
+    "of the 108 view reads and 2 tampering operations is explored breadth-first with states hashed on the lazily filled "
+    "tables, the stored trajectory and the model's parameter values, to a fixpoint (reached at depth 4; cap 6 quick / "
+    "10 thorough). Every returned table is compared with the reference evaluator at each row's state, "
     "time and segment parameters; N.v = dx/dt; stacked = per-segment; producers/consumers; three normalisation shapes."
 )
 LEVEL_NOTE = "trusted: mc/refeval.py; states are taken from the stored trajectory (C04 checks the trajectory itself); canonical key = digest of raw_args + model parameter values, which is all the mutable state the views read"
 RULE = (
-    "transition = (number of segments, canonical state, operation); BFS with state hashing. Non-trivial = the result "
+    "transition = (model variant, number of segments, canonical state, operation); BFS with state hashing. Non-trivial = the result "
     "has >= 2 segments or the read happens after at least one earlier operation; distinct = distinct (result, state key, op)."
 )
 ASSUMPTIONS = [
@@ -37,14 +39,46 @@ ASSUMPTIONS = [
 
 N, V = X.name, X.num
 SEG_PARAMS = [
-    {"k1": 1.0, "k2": 0.5, "n": 2.0, "c": 1.0},
-    {"k1": 2.0, "k2": 0.5, "n": 3.0, "c": 1.0},
-    {"k1": 2.0, "k2": 1.0, "n": 3.0, "c": 0.5},
+    {"k1": 1.0, "k2": 0.5, "n": 2.0, "c": 1.0, "m": 1.0},
+    {"k1": 2.0, "k2": 0.5, "n": 3.0, "c": 1.0, "m": 1.5},
+    {"k1": 2.0, "k2": 1.0, "n": 3.0, "c": 0.5, "m": 2.0},
 ]
-TAMPER = [{"k1": 9.0, "n": 7.0, "c": 3.0}, {"k2": 4.0, "n": 0.25}]
+TAMPER = [{"k1": 9.0, "n": 7.0, "c": 3.0}, {"k2": 4.0, "n": 0.25, "m": 5.0}]
+
+
+# model variants: "rich" has a derived parameter and a derived variable that take parameters (every parameter update
+# re-resolves something); "lean" has none, so that a parameter reaches the reported numbers only through rates and
+# coefficients
+VARIANTS = ("rich", "lean")
+VARIANT = "rich"
+
+
+def set_variant(v):
+    global VARIANT
+    VARIANT = v
 
 
 def make_spec(p):
+    if VARIANT == "lean":
+        return {
+            "decl": [
+                {"kind": "variable", "name": "x", "value": 1.0},
+                {"kind": "variable", "name": "y", "value": 0.5},
+                {"kind": "parameter", "name": "k1", "value": p["k1"]},
+                {"kind": "parameter", "name": "k2", "value": p["k2"]},
+                {"kind": "parameter", "name": "n", "value": p["n"]},
+                {"kind": "parameter", "name": "c", "value": p["c"]},
+                {"kind": "parameter", "name": "m", "value": p["m"]},
+                {"kind": "derived", "name": "dv", "args": ["x"], "expr": ["mul", N("x"), V(0.5)]},
+                {"kind": "reaction", "name": "v0", "args": ["c", "time"], "expr": ["mul", N("c"), ["add", V(1.0), ["mul", V(0.1), N("time")]]], "stoich": {"x": 1}},
+                {"kind": "reaction", "name": "v1", "args": ["k1", "x"], "expr": ["mul", N("k1"), N("x")], "stoich": {"x": -1, "y": "n"}},
+                {"kind": "reaction", "name": "v2", "args": ["k2", "y", "dv"], "expr": ["add", ["mul", N("k2"), N("y")], ["mul", V(0.1), N("dv")]],
+                 "stoich": {"y": {"args": ["m"], "expr": ["mul", V(-1.0), N("m")]}}},
+                {"kind": "surrogate", "name": "s", "args": ["x"], "outputs": ["sf", "sv"],
+                 "exprs": [["mul", V(0.1), N("x")], ["add", N("x"), V(1.0)]], "stoich": {"sf": {"y": -0.5}}},
+                {"kind": "readout", "name": "ro", "args": ["x", "y"], "expr": ["div", N("x"), ["add", N("x"), N("y")]]},
+            ]
+        }
     return {
         "decl": [
             {"kind": "variable", "name": "x", "value": 1.0},
@@ -53,11 +87,14 @@ def make_spec(p):
             {"kind": "parameter", "name": "k2", "value": p["k2"]},
             {"kind": "parameter", "name": "n", "value": p["n"]},
             {"kind": "parameter", "name": "c", "value": p["c"]},
+            # m is used by nothing but a computed stoichiometric coefficient
+            {"kind": "parameter", "name": "m", "value": p["m"]},
             {"kind": "derived", "name": "dp", "args": ["k1", "k2"], "expr": ["add", N("k1"), N("k2")]},
             {"kind": "derived", "name": "dv", "args": ["x", "k2"], "expr": ["mul", N("x"), N("k2")]},
             {"kind": "reaction", "name": "v0", "args": ["c", "time"], "expr": ["mul", N("c"), ["add", V(1.0), ["mul", V(0.1), N("time")]]], "stoich": {"x": 1}},
             {"kind": "reaction", "name": "v1", "args": ["k1", "x"], "expr": ["mul", N("k1"), N("x")], "stoich": {"x": -1, "y": "n"}},
-            {"kind": "reaction", "name": "v2", "args": ["dp", "y", "dv"], "expr": ["add", ["mul", N("dp"), N("y")], ["mul", V(0.1), N("dv")]], "stoich": {"y": -1}},
+            {"kind": "reaction", "name": "v2", "args": ["dp", "y", "dv"], "expr": ["add", ["mul", N("dp"), N("y")], ["mul", V(0.1), N("dv")]],
+             "stoich": {"y": {"args": ["m"], "expr": ["mul", V(-1.0), N("m")]}}},
             {"kind": "surrogate", "name": "s", "args": ["x"], "outputs": ["sf", "sv"],
              "exprs": [["mul", V(0.1), N("x")], ["add", N("x"), V(1.0)]], "stoich": {"sf": {"y": -0.5}}},
             {"kind": "readout", "name": "ro", "args": ["x", "y"], "expr": ["div", N("x"), ["add", N("x"), N("y")]]},
@@ -74,7 +111,7 @@ _PRISTINE = {}
 
 def pristine(nseg):
     """(raw_variables, raw_parameters) produced once per process by a real Simulator."""
-    if nseg not in _PRISTINE:
+    if (VARIANT, nseg) not in _PRISTINE:
         from mxlpy import Simulator
 
         from mc.spec import build
@@ -88,8 +125,8 @@ def pristine(nseg):
             t += 1.0
             s.simulate(t, steps=3)
         res = s.get_result().unwrap_or_err()
-        _PRISTINE[nseg] = ([f.copy() for f in res.raw_variables], [dict(p) for p in res.raw_parameters])
-    return _PRISTINE[nseg]
+        _PRISTINE[(VARIANT, nseg)] = ([f.copy() for f in res.raw_variables], [dict(p) for p in res.raw_parameters])
+    return _PRISTINE[(VARIANT, nseg)]
 
 
 def fresh_simulation(nseg):
@@ -107,11 +144,11 @@ _EXPECT = {}
 
 def expected(nseg):
     """Per segment: list of (time, all-values dict, rhs dict) under that segment's parameters."""
-    if nseg not in _EXPECT:
+    if (VARIANT, nseg) not in _EXPECT:
         rv, rp = pristine(nseg)
         segs = []
         for i, f in enumerate(rv):
-            for n in ("k1", "k2", "n", "c"):
+            for n in ("k1", "k2", "n", "c", "m"):
                 if abs(rp[i][n] - SEG_PARAMS[i][n]) > 0:
                     raise HarnessError(f"stored parameters of segment {i} are {rp[i]}, expected {SEG_PARAMS[i]} (C04 territory)")
             ref = Ref(make_spec(SEG_PARAMS[i]))
@@ -120,8 +157,8 @@ def expected(nseg):
                 st = {v: float(row[v]) for v in VARS}
                 rows.append((float(t), ref.all_values(st, float(t), readouts=True), ref.rhs(st, float(t))))
             segs.append(rows)
-        _EXPECT[nseg] = segs
-    return _EXPECT[nseg]
+        _EXPECT[(VARIANT, nseg)] = segs
+    return _EXPECT[(VARIANT, nseg)]
 
 
 def _per_row_factors(nseg):
@@ -137,7 +174,7 @@ def _per_seg_factors(nseg):
 # view: (name, reader(sim, nseg) -> object, kind, columns|None, normalise kind, source)
 def _views():
     """Product of view methods x normalisation shapes x concatenated / split."""
-    allcols = VARS + ["k1", "k2", "n", "c", "dv", "dp"] + RXNS + ["sv", "sf", "ro"]
+    allcols = VARS + ["k1", "k2", "n", "c", "m", "dv", "dp"] + RXNS + ["sv", "sf", "ro"]
     full = VARS + ["dv", "sv", "ro"]
     views = [
         ("variables", lambda s, n: s.variables, "cat", full, None, "vals"),
@@ -174,7 +211,7 @@ def _views():
 
 VIEWS = _views()
 OPS = [v[0] for v in VIEWS] + ["TAMPER0", "TAMPER1"]
-COEF = {"v1": lambda p: p["n"], "v2": lambda p: 1.0, "sf": lambda p: 0.5, "v0": lambda p: 1.0}
+COEF = {"v1": lambda p: p["n"], "v2": lambda p: p["m"], "sf": lambda p: 0.5, "v0": lambda p: 1.0}
 
 
 def _close(a, b):
@@ -188,6 +225,8 @@ def check_view(view, obj, nseg):
     import pandas as pd
 
     name, _reader, kind, cols, norm, source = view
+    if VARIANT == "lean" and cols is not None:
+        cols = [c for c in cols if c != "dp"]
     exp = expected(nseg)
     row_f = _per_row_factors(nseg)
     seg_f = _per_seg_factors(nseg)
@@ -290,6 +329,7 @@ def apply_op(sim, nseg, oi):
 
 def check(case):
     nseg, hist, oi = case["nseg"], case["hist"], case["op"]
+    set_variant(case.get("variant", "rich"))
     sim = fresh_simulation(nseg)
     for h in hist:
         apply_op(sim, nseg, h)
@@ -297,7 +337,7 @@ def check(case):
         raise HarnessError(f"replay of prefix {hist} did not reproduce state {case['key']}")
     kind, payload = apply_op(sim, nseg, oi)
     nontrivial = nseg >= 2 or bool(hist)
-    txt = f"segments={nseg} history={[OPS[h] for h in hist]} op={OPS[oi]}"
+    txt = f"model={VARIANT} segments={nseg} history={[OPS[h] for h in hist]} op={OPS[oi]}"
     new = {"newkey": state_key(sim)}
     if kind == "exc":
         o = outcome(False, "view-raised", symptom=f"exception:{payload.split(':')[0]}:{OPS[oi].split('(')[0]}", nontrivial=nontrivial, detail=f"{payload} | {txt}")
@@ -319,7 +359,7 @@ def _per_row_norm(case):
 
 
 def describe(case):
-    return {"segments": case["nseg"], "history": [OPS[i] for i in case["hist"]], "operation": OPS[case["op"]]}
+    return {"model": case.get("variant", "rich"), "segments": case["nseg"], "history": [OPS[i] for i in case["hist"]], "operation": OPS[case["op"]]}
 
 
 PREDICATES = {}
@@ -327,28 +367,29 @@ PREDICATES = {}
 
 def run(ctx):
     depth = 6 if ctx.tier == "quick" else 10
-    for n in (1, 2, 3):
-        expected(n)  # computed once in the parent, inherited by the forked workers
     seen = {}
     frontier = []
-    for nseg in (1, 2, 3):
-        k = state_key(fresh_simulation(nseg))
-        seen[(nseg, k)] = []
-        frontier.append((nseg, [], k))
+    for variant in VARIANTS:
+        set_variant(variant)
+        for nseg in (1, 2, 3):
+            expected(nseg)  # computed once in the parent, inherited by the forked workers
+            k = state_key(fresh_simulation(nseg))
+            seen[(variant, nseg, k)] = []
+            frontier.append((variant, nseg, [], k))
     transitions = 0
     fix = False
     for d in range(1, depth + 1):
-        cases = [{"nseg": n, "hist": h, "op": oi, "key": k} for (n, h, k) in frontier for oi in range(len(OPS))]
+        cases = [{"variant": v, "nseg": n, "hist": h, "op": oi, "key": k} for (v, n, h, k) in frontier for oi in range(len(OPS))]
         res = ctx.evaluate(cases, keep=True, timeout=120)
         transitions += len(cases)
         nxt = []
         for c, r in zip(cases, res, strict=True):
             if not r.get("expanded"):
                 continue
-            key = (c["nseg"], r["newkey"])
+            key = (c["variant"], c["nseg"], r["newkey"])
             if key not in seen:
                 seen[key] = c["hist"] + [c["op"]]
-                nxt.append((c["nseg"], c["hist"] + [c["op"]], r["newkey"]))
+                nxt.append((c["variant"], c["nseg"], c["hist"] + [c["op"]], r["newkey"]))
         ctx.note(f"depth {d}: {len(cases)} transitions, {len(nxt)} new states, {len(seen)} states total")
         frontier = nxt
         if not frontier:
